@@ -9,6 +9,7 @@ package main
 
 import (
 	"fmt"
+	"go/token"
 	"strings"
 
 	"golang.org/x/tools/go/ssa"
@@ -190,4 +191,157 @@ func errResultOfFunc(fn *ssa.Function) int {
 		}
 	}
 	return -1
+}
+
+// outputsTruncated: a file that is created for output replaces what was there: every os.OpenFile
+// with O_CREATE and write access carries O_TRUNC, O_APPEND or O_EXCL (os.Create does by
+// definition).  Without it, writing a shorter archive, index or blob over a longer file keeps the
+// old tail: the bytes on disk are not what the operation produced although it reported success.
+var openWithoutTruncOK = map[string]string{
+	"NewSparseFile": "the copy-on-read cache file is reused across restarts on purpose; its size is fixed by Truncate(idx.Length()) and the validity of its content is tracked by the state file (C10.null-skip-needs-truncate)",
+}
+
+func (c *Ctx) outputsTruncated() {
+	n := 0
+	for _, fn := range c.Funcs {
+		for _, b := range fn.Blocks {
+			for _, ins := range b.Instrs {
+				call, ok := ins.(*ssa.Call)
+				if !ok {
+					continue
+				}
+				switch callee(call) {
+				case "os.Create":
+					n++
+					c.ok(fnKey(fn)+":os.Create", ins.Pos(), "os.Create truncates")
+				case "os.OpenFile":
+					n++
+					key := fnKey(fn) + ":os.OpenFile"
+					k, isK := call.Call.Args[1].(*ssa.Const)
+					if !isK || k.Value == nil {
+						c.bad(key, ins.Pos(), "open flags are not a constant: not recognised")
+						continue
+					}
+					fl := k.Int64()
+					const oWRONLY, oRDWR, oCREATE, oEXCL, oTRUNC, oAPPEND = 0x1, 0x2, 0x40, 0x80, 0x200, 0x400
+					switch {
+					case fl&oCREATE == 0 || fl&(oWRONLY|oRDWR) == 0:
+						c.ok(key, ins.Pos(), "opens an existing file or read-only (flags %#x)", fl)
+					case fl&(oTRUNC|oAPPEND|oEXCL) != 0:
+						c.ok(key, ins.Pos(), "creates with O_TRUNC/O_APPEND/O_EXCL (flags %#x)", fl)
+					default:
+						top := fnKey(topOf(fn))
+						if why, ok := openWithoutTruncOK[top]; ok {
+							c.info(key, ins.Pos(), "exception: %s", why)
+							continue
+						}
+						c.bad(key, ins.Pos(), "an output file is created for writing without O_TRUNC (flags %#x): written over a longer existing file, the old tail stays behind the new content and the operation still reports success", fl)
+					}
+				}
+			}
+		}
+	}
+	if n < 6 {
+		c.bad("outputs-truncated", 0, "only %d file-creating calls found", n)
+	}
+}
+
+// storeOptionsFromConfig: whether a store is compressed, verified, how often it retries - all of
+// that lives in the per-location options of the config file.  Every store constructed in
+// cmd/desync must be given options that come from cfg.GetStoreOptionsFor(location) (as they are,
+// modified field by field, or merged with the command-line options); options built from scratch
+// silently open an uncompressed store as a compressed one.
+func (c *Ctx) storeOptionsFromConfig() {
+	var derives func(v ssa.Value, depth int) bool
+	derives = func(v ssa.Value, depth int) bool {
+		if depth > 6 {
+			return false
+		}
+		ls := leaves(v)
+		if len(ls) == 0 {
+			return false
+		}
+		for _, l := range ls {
+			ok := false
+			if call, _ := callOf(l); call != nil {
+				name := callee(call)
+				switch {
+				case strings.HasSuffix(name, "Config).GetStoreOptionsFor"):
+					ok = true
+				case strings.HasSuffix(name, ").MergedWith"):
+					for _, a := range call.Call.Args {
+						if derives(a, depth+1) {
+							ok = true
+						}
+					}
+				default:
+					// a new helper that returns the options
+					if h := directCallee(call); h != nil && newHelpers[h] && h.Blocks != nil {
+						all := true
+						for _, r := range returnsOf(h) {
+							if len(r.Results) == 0 || !derives(unspill(r, r.Results[0]), depth+1) {
+								all = false
+							}
+						}
+						ok = all
+					}
+				}
+			}
+			if u, isLoad := l.(*ssa.UnOp); isLoad && u.Op == token.MUL {
+				if al, isAl := u.X.(*ssa.Alloc); isAl {
+					sts := storesTo(al)
+					ok = len(sts) > 0
+					for _, st := range sts {
+						if !derives(st.Val, depth+1) {
+							ok = false
+						}
+					}
+				}
+			}
+			if p, isParam := l.(*ssa.Parameter); isParam {
+				as := boundArgs(p)
+				ok = len(as) > 0
+				for _, a := range as {
+					if !derives(a, depth+1) {
+						ok = false
+					}
+				}
+			}
+			if !ok {
+				return false
+			}
+		}
+		return true
+	}
+	n := 0
+	for _, fn := range c.Funcs {
+		if topOf(fn).Pkg != c.CmdSSA {
+			continue
+		}
+		for _, b := range fn.Blocks {
+			for _, ins := range b.Instrs {
+				call, ok := ins.(*ssa.Call)
+				if !ok {
+					continue
+				}
+				cal := call.Call.StaticCallee()
+				if cal == nil || cal.Pkg != c.LibSSA {
+					continue
+				}
+				for k, a := range call.Call.Args {
+					if typeName(a.Type()) != "desync.StoreOptions" {
+						continue
+					}
+					_ = k
+					n++
+					key := fmt.Sprintf("%s:%s", fnKey(fn), cal.Name())
+					c.verdict(derives(a, 0), key, ins.Pos(), "the store's options come from cfg.GetStoreOptionsFor",
+						"the store is constructed with options that do not come from cfg.GetStoreOptionsFor(location): the per-location settings of the config file (uncompressed, skip-verify, retries, credentials) are ignored for it")
+				}
+			}
+		}
+	}
+	if n < 6 {
+		c.bad("store-options", 0, "only %d store constructions with options found in cmd/desync", n)
+	}
 }
